@@ -25,6 +25,11 @@ type Scenario struct {
 	Horizon         time.Duration           // virtual-time horizon (0 = none)
 	TimerDeviations bool                    // allow "timer fires although threads are enabled" (costs F)
 	OKEnds          []string                // end kinds that are acceptable (default: quiescent, done)
+	// DelayBounding makes the budget P count every deviation from the canonical
+	// scheduler (continue the current thread; when it blocks, run the first
+	// enabled thread in creation order) instead of preemptions only. Much
+	// smaller spaces for many-thread scenarios; select outcomes stay free.
+	DelayBounding bool
 	// Signature classifies a violation (specific failing call site / history
 	// class); violations with the same signature are reported once. KnownSig
 	// tells whether a signature is a listed finding: those never stop the search.
@@ -60,6 +65,7 @@ type Report struct {
 	F           int            `json:"f"`
 	Executions  int            `json:"executions"`
 	Pruned      int            `json:"pruned"`
+	Skipped     int            `json:"skipped"` // alternatives not run: successor state already explored with at least the same budget
 	States      int            `json:"states"`
 	Transitions int            `json:"transitions"`
 	MaxSteps    int            `json:"max_steps"`
@@ -76,6 +82,7 @@ type Report struct {
 func (r *Report) Merge(r2 *Report) {
 	r.Executions += r2.Executions
 	r.Pruned += r2.Pruned
+	r.Skipped += r2.Skipped
 	r.States += r2.States
 	r.Transitions += r2.Transitions
 	if r2.MaxSteps > r.MaxSteps {
@@ -314,6 +321,7 @@ func (e *explorer) explore(prefix []int, usedP, usedF, depth int) {
 	}
 	choices := append([]int{}, x.Choices...)
 	optCosts := x.OptCosts
+	optKeys, optCurs := x.OptKeys, x.OptCurs
 	nsteps := len(x.Choices)
 	Finish(x)
 	if e.b.NoCache && e.rep.States >= 0 {
@@ -329,6 +337,13 @@ func (e *explorer) explore(prefix []int, usedP, usedF, depth int) {
 			cp, cf := optCosts[i][alt][0], optCosts[i][alt][1]
 			if usedP+cp > e.b.P || usedF+cf > e.b.F {
 				continue
+			}
+			// look-ahead: the key of the successor state is known without running it
+			if !e.b.NoCache && i < len(optKeys) && alt < len(optKeys[i]) {
+				if v, ok := e.cache[cacheKey{optKeys[i][alt], optCurs[i][alt]}]; ok && v[0] >= e.b.P-usedP-cp && v[1] >= e.b.F-usedF-cf {
+					e.rep.Skipped++
+					continue
+				}
 			}
 			np := append(append(make([]int, 0, i+1), choices[:i]...), alt)
 			e.explore(np, usedP+cp, usedF+cf, depth+1)
